@@ -17,7 +17,9 @@ ID = "C01"
 LEVEL = "exploration"
 RULE = ("case = (suite, version, EtM, both record_size_limit settings, "
         "TLS 1.3 padding callback, history of write/read/set-recordSize "
-        "operations on either side with boundary-biased lengths); every "
+        "operations on either side with boundary-biased lengths, optionally "
+        "ended by the writer closing while data is undelivered and the "
+        "reader asking for more than is left); every "
         "defined (suite, version, EtM) triple is enumerated at least once "
         "per run and further histories are drawn by Hypothesis; oracle = "
         "FIFO model + reference receiver on the wire tap + per-record "
@@ -246,6 +248,42 @@ def check(case):
             taken[src] += len(got)
             continue
         raise HarnessError("bad op %r" % (op,))
+    fin = case.get("fin")
+    if fin:
+        # the writer closes with data still undelivered; the reader asks for
+        # more than is left: every pending byte must still come out, in
+        # order, before the stream ends
+        rd, mx, mn = fin
+        src = "s" if rd == "c" else "c"
+        rest, last = sc.read_all(p, src)        # other direction first
+        exp = bytes(fifo[rd][taken[rd]:])
+        if rest != exp:
+            return bad("drain-differs:%s:%s" % (suite.kind, sc.VERNAME[v]),
+                       "side %s: got %d bytes, expected %d" % (
+                           src, len(rest), len(exp)), labels=labels)
+        taken[rd] += len(rest)
+        o = sc.do_close(p, src)
+        if not o.ok:
+            return bad("close-fails:%s" % suite.kind, repr(o), labels=labels)
+        exp = bytes(fifo[src][taken[src]:])
+        got = bytearray()
+        for _ in range(len(exp) + 3):
+            o = sc.do_read(p, rd, max(mx, mn, 1), mn)
+            if o.state == "done" and o.value:
+                got += o.value
+                continue
+            break
+        labels.append("fin-close")
+        if bytes(got) != exp:
+            return bad("data-lost-at-close:%s" % sc.VERNAME[v],
+                       "writer closed with %d bytes undelivered; reads "
+                       "(max %d, min %d) returned %d bytes, equal prefix=%r, "
+                       "then %r" % (len(exp), mx, mn, len(got),
+                                    exp.startswith(bytes(got)), o),
+                       labels=labels)
+        taken[src] += len(got)
+        nt = (multi or boundary or len(exp) > 0) and bool(wrote)
+        return good(nt=nt, labels=labels)
     # drain
     for side, src in (("c", "s"), ("s", "c")):
         rest, last = sc.read_all(p, side)
@@ -324,6 +362,10 @@ def case_strategy(draw, big):
         d["pad13"] = draw(st.sampled_from(
             [None, None, ["const", 1], ["const", 100], ["fill"],
              ["mod", 64], ["mod", 512]]))
+    if draw(st.integers(0, 3)) == 0:
+        d["fin"] = [draw(st.sampled_from(["c", "s"])),
+                    draw(st.sampled_from([1, 16, 100, 70000])),
+                    draw(st.sampled_from([1, 2, 50, 3000, 70000]))]
     return d
 
 
@@ -352,3 +394,11 @@ def explicit(tier, seed):
         if v == (3, 4):
             d["pad13"] = [None, ["const", 7], ["fill"], ["mod", 64]][k % 4]
         yield d
+        if k % 3 == 0:
+            d2 = dict(d)
+            d2["ops"] = [["w", "c", 30], ["w", "s", 30], ["w", "c", 20],
+                         ["w", "s", 20], ["r", "c", 10, 10],
+                         ["r", "s", 10, 10]]
+            d2["fin"] = ["cs"[(k // 3) % 2], [100, 70000, 16][k % 3],
+                         [60, 3000, 41][(k // 3) % 3]]
+            yield d2
